@@ -1,8 +1,572 @@
-//! engine `json` (stub: to be filled in)
-use crate::util::Tr;
-use serde_json::{json, Value};
+//! C13: qgraph JSON round trips.  One execution = one diagram (family member or seeded random
+//! diagram, decorated with phases of denominators {1,2,3,4,8,16,256}, coordinates that are random
+//! multiples of 0.1, a scalar of one of the classes one / sqrt2^p e^{i k pi/4} / generic
+//! Z[omega][1/2] value / zero, occasionally an H-box) pushed through
+//!   encode_decode  quizx::json::encode_graph -> decode_graph          (vec and hash backend)
+//!   serde_hash     serde_json::to_string -> from_str of hash_graph::Graph
+//!   file           quizx::json::write_graph -> read_graph             (alternating backend)
+//! Logged per round trip: the emitted text, parsed with serde_json::Value and PROJECTED by this file
+//! (an independent reader: own phase-string parser, own scalar arithmetic) into the abstract document
+//! of spec/JsonG.tla; the decoded graph (abs_ext); the scalar verdicts that need floating point.
+//! mc/Trace_JsonG.tla decides everything else.
+//!
+//!   --fam <spec>   family as in the other engines (k=,tys=,phs=,ets=,nb=,bb=), repeatable
+//!   --stride n     keep 1/n of the enumerated diagrams (class = seed mod n)
+//!   --random N     seeded random diagrams;  --rand maxsp=,maxb=,minsp=,pedge=
+//!   --big N        seeded random diagrams with 9..16 spiders (isomorphism only, no denotation)
+//!   --named        a fixed list of small diagrams x every scalar of the catalogue
+//!   --dir <path>   where the `file` round trip writes (default <out>_files)
 
-#[allow(unused_variables)]
+use crate::absg::{abs_ext, build, sc_exact};
+use crate::eng_tensor::exact_to_c;
+use crate::gens::{self, Family, RandCfg};
+use crate::util::{arg_flag, arg_num, arg_val, guarded, Tr};
+use num::complex::Complex;
+use quizx::graph::GraphLike;
+use quizx::scalar::Scalar4;
+use rand::rngs::StdRng;
+use rand::Rng;
+use serde_json::{json, Value};
+use std::path::Path;
+
+type VecG = quizx::vec_graph::Graph;
+type HashG = quizx::hash_graph::Graph;
+
+fn parse_family(s: &str) -> Family {
+    let mut f = Family { k: 2, tys: vec!["Z"], phs: vec![0], ets: vec!["H"], nb: 0, vars: vec![], bb: false };
+    for kv in s.split(',') {
+        let (k, v) = kv.split_once('=').expect("k=v");
+        match k {
+            "k" => f.k = v.parse().unwrap(),
+            "tys" => f.tys = v.chars().map(|c| if c == 'Z' { "Z" } else { "X" }).collect(),
+            "phs" => f.phs = v.chars().map(|c| c.to_digit(10).unwrap() as i64).collect(),
+            "ets" => f.ets = v.chars().map(|c| if c == 'N' { "N" } else { "H" }).collect(),
+            "nb" => f.nb = v.parse().unwrap(),
+            "bb" => f.bb = v == "1",
+            _ => panic!("family key {k}"),
+        }
+    }
+    f
+}
+
+fn parse_rand(s: &str) -> RandCfg {
+    let mut c = RandCfg { scalars: false, ..RandCfg::any_zx() };
+    for kv in s.split(',').filter(|x| !x.is_empty()) {
+        let (k, v) = kv.split_once('=').expect("k=v");
+        match k {
+            "minsp" => c.min_sp = v.parse().unwrap(),
+            "maxsp" => c.max_sp = v.parse().unwrap(),
+            "maxb" => c.max_b = v.parse().unwrap(),
+            "pedge" => c.pedge = v.parse().unwrap(),
+            _ => panic!("rand key {k}"),
+        }
+    }
+    c
+}
+
+fn clean(s: &str) -> String {
+    s.chars().filter(|c| c.is_ascii() && *c != '"' && *c != '\\' && *c != '\n').take(160).collect()
+}
+
+// ---------------------------------------------------------------------------------------------
+// decoration of a generated diagram
+// ---------------------------------------------------------------------------------------------
+
+/// generic elements of Z[omega]: none of them is sqrt2^p e^{i k pi/4}
+const GENERIC: [[i64; 4]; 8] = [
+    [1, 2, 0, 0],   // 1 + 2w
+    [3, 0, -1, 0],  // 3 - w^2
+    [1, 1, 0, 0],   // 1 + w
+    [2, 1, 0, 0],
+    [1, 1, 0, 2],
+    [-3, 0, 0, 1],
+    [0, 3, 0, 0],   // 3w: one coefficient, not a power of two
+    [5, -2, 1, 1],
+];
+
+/// own classification of [a,b,c,d,e] (tags only; the verdict uses Ring!ExactPhasePow in TLC)
+fn sc_class(s: &[i64; 5]) -> &'static str {
+    let c = [s[0], s[1], s[2], s[3]];
+    if c == [0, 0, 0, 0] {
+        return "zero";
+    }
+    if c == [1, 0, 0, 0] && s[4] == 0 {
+        return "one";
+    }
+    let single_pow2 = |x: &[i64; 4]| {
+        let nz: Vec<i64> = x.iter().copied().filter(|v| *v != 0).collect();
+        nz.len() == 1 && (nz[0].unsigned_abs()).is_power_of_two()
+    };
+    // x * sqrt2 = x * (w - w^3)
+    let t = [c[1] - c[3], c[0] + c[2], c[1] + c[3], c[2] - c[0]];
+    if single_pow2(&c) || single_pow2(&t) {
+        "exact"
+    } else {
+        "inexact"
+    }
+}
+
+/// the scalar catalogue: index -> [a,b,c,d,e]
+fn catalogue_scalar(r: &mut StdRng, class: usize) -> [i64; 5] {
+    match class {
+        0 => [1, 0, 0, 0, 0],
+        1 => {
+            // sqrt2^p e^{i k pi/4}
+            let p: i32 = r.random_range(-12..=12);
+            let k: usize = r.random_range(0..8);
+            let (mut c, e) = if p.rem_euclid(2) == 0 { ([1i64, 0, 0, 0], p / 2) } else { ([0i64, 1, 0, -1], (p - 1) / 2) };
+            for _ in 0..k {
+                c = [-c[3], c[0], c[1], c[2]];
+            }
+            [c[0], c[1], c[2], c[3], e as i64]
+        }
+        2 => {
+            let g = GENERIC[r.random_range(0..GENERIC.len())];
+            [g[0], g[1], g[2], g[3], r.random_range(-8..=8)]
+        }
+        3 => {
+            // random small coefficients (any class)
+            let mut s = [0i64; 5];
+            for x in s.iter_mut().take(4) {
+                *x = r.random_range(-3..=3);
+            }
+            s[4] = r.random_range(-4..=4);
+            s
+        }
+        _ => [0, 0, 0, 0, 0],
+    }
+}
+
+const DENS: [i64; 7] = [1, 2, 3, 4, 8, 16, 256];
+
+struct Deco {
+    other_phases: bool,
+    zero_coords: bool,
+    hbox: bool,
+    sc: [i64; 5],
+}
+
+fn decorate(a: &Value, r: &mut StdRng, d: &Deco) -> Value {
+    let mut a = a.clone();
+    let nv = a["v"].as_array().unwrap().len();
+    for v in a["v"].as_array_mut().unwrap() {
+        let is_b = v["ty"] == "B";
+        if !d.zero_coords {
+            // multiples of 0.1, also negative
+            v["r"] = json!(r.random_range(-50..=120) as f64 / 10.0);
+            v["q"] = json!(r.random_range(-50..=120) as f64 / 10.0);
+        }
+        if !is_b && d.other_phases && r.random_bool(0.6) {
+            let den = DENS[r.random_range(0..DENS.len())];
+            let num = r.random_range(-(2 * den)..=(2 * den));
+            v["ph"] = json!([num, den]);
+        }
+        if !is_b && d.hbox && r.random_bool(if nv <= 3 { 0.7 } else { 0.3 }) {
+            v["ty"] = json!("Hbox");
+            if r.random_bool(0.5) {
+                v["ph"] = json!([1, 1]); // the default phase of an H-box (written as "")
+            }
+        }
+    }
+    a["sc"] = json!(d.sc);
+    a
+}
+
+// ---------------------------------------------------------------------------------------------
+// the independent reader: emitted text -> abstract document
+// ---------------------------------------------------------------------------------------------
+
+/// "3*pi/4", "-pi/2", "pi", "7/4", "0", "~5*pi/13" -> (n, d); "" -> None
+fn read_phase(s: &str) -> Result<Option<(i64, i64)>, String> {
+    let t: String = s.chars().filter(|c| !c.is_whitespace() && *c != '~').collect();
+    if t.is_empty() {
+        return Ok(None);
+    }
+    let (np, den) = match t.split_once('/') {
+        Some((a, b)) => (a.to_string(), b.parse::<i64>().map_err(|_| format!("denominator of {s}"))?),
+        None => (t.clone(), 1),
+    };
+    let num = if let Some(c) = np.strip_suffix("pi") {
+        let c = c.trim_end_matches('*');
+        match c {
+            "" => 1,
+            "-" => -1,
+            _ => c.parse::<i64>().map_err(|_| format!("numerator of {s}"))?,
+        }
+    } else {
+        np.parse::<i64>().map_err(|_| format!("numerator of {s}"))?
+    };
+    if den <= 0 {
+        return Err(format!("denominator of {s}"));
+    }
+    Ok(Some((num, den)))
+}
+
+fn small_pair(p: Option<(i64, i64)>) -> Result<Value, String> {
+    match p {
+        None => Ok(json!([0, 0])),
+        Some((n, d)) if n.abs() < (1 << 30) && d < (1 << 30) => Ok(json!([n, d])),
+        Some((n, d)) => Err(format!("phase {n}/{d} too large")),
+    }
+}
+
+fn name_key(s: &str) -> (String, u64) {
+    let pos = s.find(|c: char| c.is_ascii_digit()).unwrap_or(s.len());
+    (s[..pos].to_string(), s[pos..].parse::<u64>().unwrap_or(u64::MAX))
+}
+
+fn milli(v: &Value) -> Result<i64, String> {
+    let f = v.as_f64().ok_or("coordinate is not a number")?;
+    let m = (f * 1000.0).round();
+    if m.abs() > 1e9 {
+        return Err("coordinate too large".into());
+    }
+    Ok(m as i64)
+}
+
+fn coord_of(ann: &Value) -> Result<Value, String> {
+    match ann.get("coord") {
+        None => Ok(json!([0, 0])),
+        Some(c) => Ok(json!([milli(&c[0])?, milli(&c[1])?])),
+    }
+}
+
+fn io_index(ann: &Value, key: &str) -> Result<i64, String> {
+    match ann.get(key) {
+        None => Ok(-1),
+        Some(Value::Number(n)) => n.as_i64().filter(|x| *x >= 0 && *x < 1 << 20).ok_or(format!("{key} index")),
+        Some(_) => Err(format!("{key} is not a number")),
+    }
+}
+
+struct DocView {
+    doc: Value,
+    /// the scalar a reader computes from the scalar fields with doubles (None: absent = 1)
+    scalar: Complex<f64>,
+}
+
+fn project_doc(text: &str) -> Result<DocView, String> {
+    let v: Value = serde_json::from_str(text).map_err(|e| format!("not JSON: {e}"))?;
+    let obj = |k: &str| -> Vec<(String, Value)> {
+        let mut xs: Vec<(String, Value)> =
+            v.get(k).and_then(|m| m.as_object()).map(|m| m.iter().map(|(a, b)| (a.clone(), b.clone())).collect()).unwrap_or_default();
+        xs.sort_by_key(|(n, _)| name_key(n));
+        xs
+    };
+    let mut wires = vec![];
+    for (name, at) in obj("wire_vertices") {
+        let ann = at.get("annotation").cloned().unwrap_or(json!({}));
+        wires.push(json!({"name": name, "boundary": ann.get("boundary").and_then(|b| b.as_bool()).unwrap_or(false),
+                          "coord": coord_of(&ann)?, "input": io_index(&ann, "input")?, "output": io_index(&ann, "output")?}));
+    }
+    let mut nodes = vec![];
+    for (name, at) in obj("node_vertices") {
+        let ann = at.get("annotation").cloned().unwrap_or(json!({}));
+        let data = at.get("data").cloned().unwrap_or(json!({}));
+        let ty = data.get("type").and_then(|t| t.as_str()).unwrap_or("Z").to_string();
+        let value = small_pair(read_phase(data.get("value").and_then(|t| t.as_str()).unwrap_or(""))?)?;
+        let is_edge = match data.get("is_edge") {
+            None => false,
+            Some(Value::String(s)) => s == "true",
+            Some(Value::Bool(b)) => *b,
+            Some(_) => return Err("is_edge".into()),
+        };
+        nodes.push(json!({"name": name, "type": ty, "value": value, "is_edge": is_edge, "coord": coord_of(&ann)?}));
+    }
+    let mut edges = vec![];
+    for (_, at) in obj("undir_edges") {
+        let src = at.get("src").and_then(|t| t.as_str()).ok_or("edge without src")?;
+        let tgt = at.get("tgt").and_then(|t| t.as_str()).ok_or("edge without tgt")?;
+        let ty = at.get("type").and_then(|t| t.as_str()).unwrap_or("simple");
+        edges.push(json!({"src": src, "tgt": tgt, "type": ty}));
+    }
+    // the scalar: a JSON text inside a string field
+    let mut sc = json!({"present": false, "power2": 0, "phase": [0, 0], "ff": "absent", "is_zero": false});
+    let mut val = Complex::new(1.0, 0.0);
+    if let Some(s) = v.get("scalar").and_then(|s| s.as_str()).filter(|s| !s.is_empty()) {
+        let j: Value = serde_json::from_str(s).map_err(|e| format!("scalar is not JSON: {e}"))?;
+        if j.get("phasenodes").and_then(|p| p.as_array()).map(|p| !p.is_empty()).unwrap_or(false)
+            || j.get("is_unknown").and_then(|p| p.as_bool()).unwrap_or(false)
+        {
+            return Err("scalar with phasenodes / is_unknown".into());
+        }
+        let power2 = j.get("power2").and_then(|p| p.as_i64()).unwrap_or(0);
+        if power2.abs() >= 1 << 20 {
+            return Err("power2 too large".into());
+        }
+        let ph = read_phase(j.get("phase").and_then(|p| p.as_str()).unwrap_or(""))?;
+        let is_zero = j.get("is_zero").and_then(|p| p.as_bool()).unwrap_or(false);
+        let (ff, ffv) = match j.get("floatfactor") {
+            None => ("absent", 1.0),
+            Some(f) => {
+                let f = f.as_f64().ok_or("floatfactor is not a number")?;
+                if f == 1.0 {
+                    ("one", 1.0)
+                } else {
+                    ("other", f)
+                }
+            }
+        };
+        let angle = ph.map(|(n, d)| n as f64 / d as f64).unwrap_or(0.0) * std::f64::consts::PI;
+        val = if is_zero { Complex::new(0.0, 0.0) } else { Complex::from_polar(ffv * 2f64.powf(power2 as f64 / 2.0), angle) };
+        // with a float factor the angle is a float-derived rational: opaque to the specification
+        let phase = if ff == "other" { json!([0, 0]) } else { small_pair(ph)? };
+        sc = json!({"present": true, "power2": power2, "phase": phase, "ff": ff, "is_zero": is_zero});
+    }
+    Ok(DocView { doc: json!({"wire_vertices": wires, "node_vertices": nodes, "undir_edges": edges, "scalar": sc}), scalar: val })
+}
+
+// ---------------------------------------------------------------------------------------------
+// scalars with doubles (the clauses TLA+ cannot state)
+// ---------------------------------------------------------------------------------------------
+
+/// complex value from the raw stored parts (not through the library's f64 conversion)
+fn raw_to_c(s: &Scalar4) -> Complex<f64> {
+    let c: Vec<f64> = s
+        .verif_coeffs()
+        .iter()
+        .map(|d| {
+            let (neg, m, e, _) = d.verif_raw();
+            let x = (m as f64) * 2f64.powi(e);
+            if neg {
+                -x
+            } else {
+                x
+            }
+        })
+        .collect();
+    let r = std::f64::consts::FRAC_1_SQRT_2;
+    Complex::new(c[0] + (c[1] - c[3]) * r, c[2] + (c[1] + c[3]) * r)
+}
+
+fn rel_err(want: Complex<f64>, got: Complex<f64>) -> f64 {
+    let d = (want - got).norm();
+    if d == 0.0 {
+        0.0
+    } else if want.norm() == 0.0 {
+        f64::INFINITY
+    } else {
+        d / want.norm()
+    }
+}
+
+fn ppb(x: f64) -> i64 {
+    let y = (x * 1e9).round();
+    if y.is_nan() || y > 2e9 {
+        2_000_000_000
+    } else {
+        y as i64
+    }
+}
+
+// ---------------------------------------------------------------------------------------------
+// one round trip
+// ---------------------------------------------------------------------------------------------
+
+fn attempt<T>(f: impl FnOnce() -> Result<T, String>, errname: &str) -> Result<T, (String, String)> {
+    match guarded(f) {
+        Err(p) => Err(("panic".to_string(), p)),
+        Ok(Err(m)) => Err((errname.to_string(), clean(&m))),
+        Ok(Ok(t)) => Ok(t),
+    }
+}
+
+fn roundtrip<G: GraphLike>(
+    via: &str,
+    be: &str,
+    tags: &[String],
+    pre_sc: &Scalar4,
+    enc: impl FnOnce() -> Result<String, String>,
+    dec: impl FnOnce(&str) -> Result<G, String>,
+) -> Value {
+    let mut tags: Vec<String> = tags.to_vec();
+    tags.push(format!("via={via}"));
+    let fail = |res: &str, msg: &str| json!({"k": "roundtrip", "via": via, "be": be, "res": res, "msg": msg, "tags": tags});
+    let text = match attempt(enc, "encode_err") {
+        Ok(t) => t,
+        Err((res, msg)) => return fail(&res, &msg),
+    };
+    let view = match project_doc(&text) {
+        Ok(d) => d,
+        Err(m) => return fail("unreadable", &clean(&m)),
+    };
+    let g2: G = match attempt(|| dec(&text), "decode_err") {
+        Ok(g) => g,
+        Err((res, msg)) => {
+            let mut e = fail(&res, &msg);
+            e["doc"] = view.doc;
+            return e;
+        }
+    };
+    let mut post = abs_ext(&g2);
+    post.as_object_mut().unwrap().remove("n");
+    let sc_big = post["sc"].is_string();
+    if sc_big {
+        post["sc"] = json!([0, 0, 0, 0, 0]);
+    }
+    let want = exact_to_c(pre_sc).expect("input scalars are small");
+    let kept = match (sc_exact(pre_sc), sc_exact(g2.scalar())) {
+        (Some(a), Some(b)) => a == b,
+        _ => false,
+    };
+    let err_post = rel_err(want, raw_to_c(g2.scalar()));
+    let err_doc = rel_err(want, view.scalar);
+    json!({"k": "roundtrip", "via": via, "be": be, "res": "ok", "doc": view.doc, "post": post, "sc_big": sc_big,
+           "scalar_exact_kept": kept, "scalar_close": err_post <= 1e-9, "doc_scalar_close": err_doc <= 1e-9,
+           "relerr_ppb": ppb(err_post), "doc_relerr_ppb": ppb(err_doc), "tags": tags})
+}
+
+struct Ctx {
+    dir: String,
+    count: usize,
+    events: usize,
+    failures: usize,
+    max_ppb_exact: i64,
+    max_ppb_inexact: i64,
+}
+
+fn record_diagram(a: &Value, extra_tags: &[&str], cx: &mut Ctx, tr: &mut Tr) {
+    cx.count += 1;
+    let gv: VecG = build(a);
+    let gh: HashG = build(a);
+    let mut pre = abs_ext(&gv);
+    pre.as_object_mut().unwrap().remove("n");
+    {
+        let mut p2 = abs_ext(&gh);
+        p2.as_object_mut().unwrap().remove("n");
+        assert_eq!(pre, p2, "the two backends were built differently");
+    }
+    let scv: Vec<i64> = a["sc"].as_array().unwrap().iter().map(|x| x.as_i64().unwrap()).collect();
+    let class = sc_class(&[scv[0], scv[1], scv[2], scv[3], scv[4]]);
+    let vs = a["v"].as_array().unwrap();
+    let pi4 = vs.iter().all(|v| 4 % v["ph"][1].as_i64().unwrap() == 0);
+    let mut tags: Vec<String> = vec![format!("sc={class}"), format!("ph={}", if pi4 { "pi4" } else { "other" })];
+    if vs.iter().any(|v| v["ty"] == "Hbox") {
+        tags.push("hbox".into());
+    }
+    if a["e"].as_array().unwrap().iter().any(|e| e["t"] == "H") {
+        tags.push("hedge".into());
+    }
+    tags.extend(extra_tags.iter().map(|s| s.to_string()));
+    tr.group();
+    tr.emit(json!({"k": "reset", "pre": pre}));
+    let pre_sc = *gv.scalar();
+    let je = |e: quizx::json::JsonError| format!("{e}");
+    let mut evs = vec![
+        roundtrip::<VecG>("encode_decode", "vec", &tags, &pre_sc, || quizx::json::encode_graph(&gv).map_err(je), |s| quizx::json::decode_graph::<VecG>(s).map_err(je)),
+        roundtrip::<HashG>("encode_decode", "hash", &tags, &pre_sc, || quizx::json::encode_graph(&gh).map_err(je), |s| quizx::json::decode_graph::<HashG>(s).map_err(je)),
+        roundtrip::<HashG>("serde_hash", "hash", &tags, &pre_sc, || serde_json::to_string(&gh).map_err(|e| format!("{e}")), |s| serde_json::from_str::<HashG>(s).map_err(|e| format!("{e}"))),
+    ];
+    let path = format!("{}/rt_{}.qgraph", cx.dir, cx.count);
+    let p = Path::new(&path);
+    let read_back = || std::fs::read_to_string(p).map_err(|e| format!("cannot read the written file: {e}"));
+    if cx.count % 2 == 0 {
+        evs.push(roundtrip::<VecG>("file", "vec", &tags, &pre_sc, || quizx::json::write_graph(&gv, p).map_err(je).and_then(|_| read_back()),
+                                   |_| quizx::json::read_graph::<VecG>(p).map_err(je)));
+    } else {
+        evs.push(roundtrip::<HashG>("file", "hash", &tags, &pre_sc, || quizx::json::write_graph(&gh, p).map_err(je).and_then(|_| read_back()),
+                                    |_| quizx::json::read_graph::<HashG>(p).map_err(je)));
+    }
+    let _ = std::fs::remove_file(p);
+    for e in evs {
+        cx.events += 1;
+        if e["res"] != "ok" {
+            cx.failures += 1;
+        } else {
+            let x = e["relerr_ppb"].as_i64().unwrap();
+            if class == "inexact" {
+                cx.max_ppb_inexact = cx.max_ppb_inexact.max(x);
+            } else {
+                cx.max_ppb_exact = cx.max_ppb_exact.max(x);
+            }
+        }
+        tr.emit(e);
+    }
+}
+
+fn named() -> Vec<Value> {
+    use crate::gens::{mk, AV};
+    let z = |id, ph| AV { id, ty: "Z", ph, vars: vec![] };
+    let x = |id, ph| AV { id, ty: "X", ph, vars: vec![] };
+    let b = |id| AV { id, ty: "B", ph: 0, vars: vec![] };
+    let one = [1, 0, 0, 0, 0];
+    vec![
+        mk(&[], &[], &[], &[], one),                                                               // the empty diagram
+        mk(&[z(0, 0)], &[], &[], &[], one),                                                        // one spider (the scalar carrier)
+        mk(&[b(0), b(1)], &[(0, 1, "N")], &[0], &[1], one),                                        // a wire
+        mk(&[b(0), b(1)], &[(0, 1, "H")], &[0], &[1], one),                                        // a Hadamard wire
+        mk(&[b(3), z(1, 1), x(2, 7), b(0)], &[(3, 1, "H"), (1, 2, "H"), (2, 0, "N")], &[3], &[0], one),
+        mk(&[b(0), b(1), b(2), b(3), z(4, 2), z(5, 2)], &[(0, 4, "N"), (1, 5, "N"), (4, 5, "H"), (4, 2, "N"), (5, 3, "H")], &[1, 0], &[3, 2], one),
+        mk(&[b(5), b(6), z(0, 0), z(1, 0), z(2, 0)], &[(0, 1, "H"), (1, 2, "H"), (0, 2, "H"), (5, 0, "N"), (6, 1, "N")], &[6, 5], &[], one), // symmetric
+    ]
+}
+
 pub fn record(args: &[String], seed: u64, tr: &mut Tr) -> Value {
-    json!({"stub": true})
+    let out = arg_val(args, "--out").unwrap_or_else(|| "json".into());
+    let dir = arg_val(args, "--dir").unwrap_or(format!("{out}_files"));
+    std::fs::create_dir_all(&dir).expect("create --dir");
+    let mut cx = Ctx { dir, count: 0, events: 0, failures: 0, max_ppb_exact: 0, max_ppb_inexact: 0 };
+    let mut r = gens::rng(seed ^ 0xc13);
+    let stride: usize = arg_num(args, "--stride", 1);
+    let offset: usize = seed as usize % stride.max(1);
+    let (mut nfam, mut nrand, mut nbig, mut nnamed) = (0usize, 0usize, 0usize, 0usize);
+
+    if arg_flag(args, "--named") {
+        // every named diagram x every scalar class, several draws
+        for a in named() {
+            for class in [0usize, 1, 1, 2, 2, 2, 3, 4] {
+                let sc = catalogue_scalar(&mut r, class);
+                let d = Deco { other_phases: false, zero_coords: class == 0, hbox: false, sc };
+                record_diagram(&decorate(&a, &mut r, &d), &[], &mut cx, tr);
+                nnamed += 1;
+            }
+        }
+        // every generic value of the catalogue on the one-spider diagram, unscaled and scaled
+        for g in GENERIC {
+            for e in [0i64, -10, 7] {
+                let d = Deco { other_phases: false, zero_coords: true, hbox: false, sc: [g[0], g[1], g[2], g[3], e] };
+                record_diagram(&decorate(&named()[1], &mut r, &d), &[], &mut cx, tr);
+                nnamed += 1;
+            }
+        }
+    }
+    for fam in args.iter().enumerate().filter(|(_, a)| *a == "--fam").map(|(i, _)| args[i + 1].clone()) {
+        let f = parse_family(&fam);
+        let mut idx = 0usize;
+        gens::enum_family(&f, |a| {
+            if idx % stride == offset {
+                // family members keep their pi/4 phases two times out of three (denotation checked)
+                let class = [0usize, 1, 2, 1, 3, 2, 1, 4][nfam % 8];
+                let d = Deco { other_phases: nfam % 3 == 2, zero_coords: nfam % 7 == 3, hbox: false, sc: catalogue_scalar(&mut r, class) };
+                record_diagram(&decorate(&a, &mut r, &d), &[], &mut cx, tr);
+                nfam += 1;
+            }
+            idx += 1;
+        });
+    }
+    let n: usize = arg_num(args, "--random", 0);
+    if n > 0 {
+        let cfg = parse_rand(&arg_val(args, "--rand").unwrap_or_default());
+        for i in 0..n {
+            let a = gens::random_diagram(&mut r, &cfg);
+            let class = [1usize, 2, 0, 3, 1, 2, 4, 2][i % 8];
+            let d = Deco { other_phases: i % 2 == 1, zero_coords: i % 9 == 4, hbox: i % 6 == 5, sc: catalogue_scalar(&mut r, class) };
+            record_diagram(&decorate(&a, &mut r, &d), &[], &mut cx, tr);
+            nrand += 1;
+        }
+    }
+    let n: usize = arg_num(args, "--big", 0);
+    if n > 0 {
+        let cfg = RandCfg { min_sp: 9, max_sp: 16, max_b: 5, pedge: 0.22, scalars: false, ..RandCfg::any_zx() };
+        for i in 0..n {
+            let a = gens::random_diagram(&mut r, &cfg);
+            let class = [1usize, 2, 0, 3][i % 4];
+            let d = Deco { other_phases: i % 2 == 0, zero_coords: i % 5 == 2, hbox: i % 4 == 3, sc: catalogue_scalar(&mut r, class) };
+            record_diagram(&decorate(&a, &mut r, &d), &["big"], &mut cx, tr);
+            nbig += 1;
+        }
+    }
+    let _ = std::fs::remove_dir(&cx.dir);
+    json!({"diagrams": cx.count, "family": nfam, "random": nrand, "big": nbig, "named": nnamed, "roundtrips": cx.events,
+           "not_ok": cx.failures, "max_relerr_ppb_exact_class": cx.max_ppb_exact, "max_relerr_ppb_other": cx.max_ppb_inexact})
 }
